@@ -1,12 +1,253 @@
 /-
-  CmdEvo.lean — driver commands (stub; owned by the group that builds the corresponding model).
+  CmdEvo.lean — driver commands of the random-search model (C19).
+
+  Scores travel as exact rationals `num/den` (Python `float.as_integer_ratio()`) or `inf`.
+    evo.isclose   a=<s> b=<s>                                   -> ok close=0|1 lt=0|1
+    evo.update_hof nhof=N hof=<s:size|s:none,…> pop=<s:size,…>   -> ok hof=<h0,p1,none,…> scores=<s,…> pos=<i|-,…>
+    evo.tournament npop=N k=K scores=<s,…> draws=<i.j,i.j,…>     -> ok sel=<j,…> fresh=0|1
+    evo.solve     nhof nstop npop k sel adapt nemit kind init=<size.fp,…> gens=<s:size:fp,…|…> tourn=<i.j,…|…>
+                                                                -> ok hofs=… pops=… result=… probs=… coherent=…
+    evo.adapt     nstop nemit kind steps                         -> ok probs=<p,…|p,…>
+    evo.choice    p=<q,…> u=<q>                                  -> ok idx=i
+    evo.positions nn= edges=<u.v.k,…> e=<u.v.k,…> p=<…> ops=<kind per node>  -> ok cnot=<…> meas=<…>
 -/
+import GraphiqModel.Model.Evo
 import Driver.Proto
 namespace Graphiq.CmdEvo
-open Graphiq Graphiq.Proto
+open Graphiq Graphiq.Proto Graphiq.Evo
+
+def parseRat (s : String) : Option Rat :=
+  match splitChar '/' s with
+  | [n] => n.toInt?.map fun z => (z : Rat)
+  | [n, d] => match n.toInt?, d.toNat? with
+    | some z, some m => some (mkRat z m)
+    | _, _ => none
+  | _ => none
+
+def parseScore (s : String) : Option Score :=
+  if s = "inf" then some .inf else (parseRat s).map .fin
+
+def showRat (q : Rat) : String := s!"{q.num}/{q.den}"
+
+def joinOr (sep : String) (l : List String) : String := if l.isEmpty then "-" else String.intercalate sep l
+
+/-- cell of the driver heap for `update_hof` / `tournament`: node count and a tag naming where the content came from -/
+structure Cell where
+  size : Nat
+  tag : Nat
+  score : Score := .inf
+  deriving Inhabited
+
+def cellParams : Params Cell Cell := ⟨fun _ d => d, fun c => c.score, fun c => c.size⟩
+
+def errS (e : Err) : String := s!"err {e}"
+
+/-! ### evo.isclose -/
+def cmdIsclose (a : Args) : String :=
+  match parseScore (get a "a"), parseScore (get a "b") with
+  | some x, some y => s!"ok close={b01 (x.isclose Tol.numpy y)} lt={b01 (x.lt y)}"
+  | _, _ => "err parse"
+
+/-! ### evo.update_hof -/
+def cmdUpdateHof (a : Args) : String :=
+  let nHof := getNat a "nhof"
+  let hofToks := listOf (get a "hof")
+  let popToks := listOf (get a "pop")
+  let nh := hofToks.length
+  -- heap: one cell per non-None hof entry (tag = hof index), then one per population member (tag = nh + j)
+  let step1 := hofToks.foldl (fun (acc : Array Cell × List HofEntry × Nat × Bool) tok =>
+      let (cells, hof, i, ok) := acc
+      match splitChar ':' tok with
+      | [s, sz] =>
+        match parseScore s with
+        | none => (cells, hof, i + 1, false)
+        | some sc =>
+          if sz = "none" then (cells, hof ++ [⟨sc, none⟩], i + 1, ok)
+          else (cells.push ⟨sz.toNat?.getD 0, i, sc⟩, hof ++ [⟨sc, some cells.size⟩], i + 1, ok)
+      | _ => (cells, hof, i + 1, false)) (#[], [], 0, true)
+  let (cells1, hof, _, ok1) := step1
+  let step2 := popToks.foldl (fun (acc : Array Cell × List PopEntry × Nat × Bool) tok =>
+      let (cells, pop, j, ok) := acc
+      match splitChar ':' tok with
+      | [s, sz] =>
+        match parseScore s with
+        | none => (cells, pop, j + 1, false)
+        | some sc => (cells.push ⟨sz.toNat?.getD 0, nh + j, sc⟩, pop ++ [⟨sc, cells.size⟩], j + 1, ok)
+      | _ => (cells, pop, j + 1, false)) (cells1, [], 0, ok1)
+  let (cells2, pop, _, ok2) := step2
+  if !ok2 then "err parse" else
+  let h0 : Heap Cell := ⟨cells2⟩
+  -- per-member insertion positions (re-running the scan on the evolving state) and the final result
+  let rec go (h : Heap Cell) (hf : List HofEntry) (ps : List PopEntry) (pos : List String) :
+      Except Err (Heap Cell × List HofEntry × List String) :=
+    match ps with
+    | [] => .ok (h, hf, pos)
+    | e :: rest =>
+      let p := match h.get? e.circ with
+        | none => "?"
+        | some c => match scanHof Tol.numpy (fun c : Cell => c.size) h hf e.score c.size 0 nHof with
+          | .ok (some i) => toString i
+          | _ => "-"
+      match updateHofOne Tol.numpy (fun c : Cell => c.size) nHof h hf e with
+      | .error er => .error er
+      | .ok (h', hf') => go h' hf' rest (pos ++ [p])
+  match go h0 hof pop [] with
+  | .error er => errS er
+  | .ok (h, hf, pos) =>
+    -- cross-check: the fold `updateHof` gives the same result
+    let same := match updateHof Tol.numpy (fun c : Cell => c.size) nHof h0 hof pop with
+      | .ok (_, hf2) => decide (hf2 = hf)
+      | .error _ => false
+    let names := hf.map fun e => match e.circ with
+      | none => "none"
+      | some r => match h.get? r with
+        | none => "dangling"
+        | some c =>
+          if r < cells2.size then (if c.tag < nh then s!"h{c.tag}" else s!"alias-p{c.tag - nh}")
+          else (if c.tag < nh then s!"copy-h{c.tag}" else s!"p{c.tag - nh}")
+    s!"ok hof={joinOr "," names} scores={joinOr "," (hf.map (·.score.toString))} pos={joinOr "," pos} fold={b01 same}"
+
+/-! ### evo.tournament -/
+def cmdTournament (a : Args) : String :=
+  let nPop := getNat a "npop"
+  let k := getNat a "k"
+  let scores := (listOf (get a "scores")).map parseScore
+  if scores.any (·.isNone) then "err parse" else
+  let scs := scores.map (·.getD .inf)
+  let cells : Array Cell := (scs.zipIdx.map fun (s, j) => (⟨0, j, s⟩ : Cell)).toArray
+  let pop : List PopEntry := scs.zipIdx.map fun (s, j) => ⟨s, j⟩
+  let drs : Array (List Nat) := ((listOf (get a "draws")).map (natsOf '.')).toArray
+  match tournamentSelection nPop k (⟨cells⟩ : Heap Cell) pop (fun i => drs.getD i []) with
+  | .error er => errS er
+  | .ok (h, pop') =>
+    let sel := pop'.map fun e => match h.get? e.circ with
+      | some c => toString c.tag
+      | none => "?"
+    let fresh := pop'.all fun e => decide (e.circ ≥ cells.size)
+    let distinct := decide ((pop'.map (·.circ)).eraseDups.length = pop'.length)
+    s!"ok sel={joinOr "," sel} fresh={b01 fresh} distinct={b01 distinct} scores={joinOr "," (pop'.map (·.score.toString))}"
+
+/-! ### evo.solve — replay of a whole run from the observed draw stream -/
+
+def parseCell (tok : String) : Option Cell :=
+  match splitChar ':' tok with
+  | [s, sz, fp] => (parseScore s).map fun sc => ⟨sz.toNat?.getD 0, fp.toNat?.getD 0, sc⟩
+  | _ => none
+
+/-- tabulated draws: structure of closures over arrays (never a function-returning def with array lets) -/
+def mkDraws (muts : Array (Array Cell)) (tourn : Array (Array (List Nat))) : Draws Cell :=
+  ⟨fun g j => (muts.getD g #[]).getD j default, fun g i => (tourn.getD g #[]).getD i []⟩
+
+def showHof (h : Heap Cell) (hof : List HofEntry) : String :=
+  joinOr "," (hof.map fun e => match e.circ with
+    | none => s!"{e.score.toString}:none:none"
+    | some r => match h.get? r with
+      | none => s!"{e.score.toString}:dangling:{r}"
+      | some c => s!"{e.score.toString}:{c.tag}:{r}")
+
+def showProbs (p : TransProbs) : String := joinOr "," (p.map fun kv => showRat kv.2)
+
+def cmdSolve (a : Args) : String :=
+  let cfg : Cfg := {
+    nHof := getNat a "nhof", nStop := getNat a "nstop", nPop := getNat a "npop", tournamentK := getNat a "k",
+    selectionActive := get a "sel" = "1", useAdaptProbability := get a "adapt" = "1", nEmitter := getNat a "nemit" }
+  let tp := if get a "kind" = "hybrid" then initTransProbsHybrid cfg.nEmitter else initTransProbsEvo cfg.nEmitter
+  let initCells := (listOf (get a "init")).map fun tok =>
+    match natsOf '.' tok with
+    | [sz, fp] => (⟨sz, fp, .inf⟩ : Cell)
+    | _ => default
+  let gensRaw := if get a "gens" = "" ∨ get a "gens" = "-" then [] else splitChar '|' (get a "gens")
+  let gens := gensRaw.map fun g => (listOf g).map parseCell
+  if gens.any (fun g => g.any (·.isNone)) then "err parse" else
+  let mutA : Array (Array Cell) := (gens.map fun g => (g.map (·.getD default)).toArray).toArray
+  let tournRaw := if get a "tourn" = "" ∨ get a "tourn" = "-" then [] else splitChar '|' (get a "tourn")
+  let tournA : Array (Array (List Nat)) := (tournRaw.map fun g => ((listOf g).map (natsOf '.')).toArray).toArray
+  let dr := mkDraws mutA tournA
+  -- run generation by generation to report the per-generation hall of fame and population references
+  let rec go (g fuel : Nat) (s : St Cell) (hofs pops probs : List String) :
+      Except String (St Cell × List String × List String × List String) :=
+    match fuel with
+    | 0 => .ok (s, hofs, pops, probs)
+    | fuel + 1 =>
+      match generation cellParams cfg dr g s with
+      | .error er => .error s!"err {er} gen={g}"
+      | .ok s' => go (g + 1) fuel s' (hofs ++ [showHof s'.heap s'.hof])
+                    (pops ++ [joinOr "," (s'.pop.map fun e => toString e.circ)]) (probs ++ [showProbs s'.transProbs])
+  match go 0 cfg.nStop (initState cfg tp initCells) [] [] [] with
+  | .error msg => msg
+  | .ok (s, hofs, pops, probs) =>
+    match solve cellParams cfg dr tp initCells with
+    | .error er => errS er
+    | .ok (s2, res) =>
+      let same := decide (s2.hof = s.hof) && decide (s2.pop = s.pop)
+      let allScores := (mutA.toList.flatMap fun g => g.toList.map (·.score)) ++ [Score.inf]
+      let resS := match res.circ with
+        | none => s!"{res.score.toString}:none:none"
+        | some r => match s2.heap.get? r with
+          | none => s!"{res.score.toString}:dangling:{r}"
+          | some c => s!"{res.score.toString}:{c.tag}:{r}"
+      s!"ok hofs={joinOr "|" hofs} pops={joinOr "|" pops} probs={joinOr "|" probs} result={resS} same={b01 same} coherent={b01 (coherentOn cfg.tol allScores.eraseDups)} heap={s2.heap.size}"
+
+/-! ### evo.adapt / evo.choice -/
+def cmdAdapt (a : Args) : String :=
+  let nStop := getNat a "nstop"
+  let nEmit := getNat a "nemit"
+  let tp0 := match get a "kind" with
+    | "hybrid" => initTransProbsHybrid nEmit
+    | "randomize" => randomizeTransProbs nEmit
+    | _ => initTransProbsEvo nEmit
+  let steps := getNat a "steps"
+  let rec go (k : Nat) (tp : TransProbs) (acc : List String) : List String :=
+    match k with
+    | 0 => acc
+    | k + 1 => let tp' := adaptProbabilities nStop nEmit tp; go k tp' (acc ++ [showProbs tp'])
+  s!"ok keys={joinOr "," (tp0.map (·.1.toString))} probs={joinOr "|" (go steps tp0 [showProbs tp0])}"
+
+def cmdChoice (a : Args) : String :=
+  let ps := (listOf (get a "p")).map parseRat
+  match parseRat (get a "u") with
+  | none => "err parse"
+  | some u =>
+    if ps.any (·.isNone) then "err parse" else
+    s!"ok idx={choiceIndex (ps.map (·.getD 0)) u}"
+
+/-! ### evo.positions -/
+def parseEdge (tok : String) : Edge :=
+  match natsOf '.' tok with
+  | [u, v, k] => ⟨u, v, k⟩
+  | _ => default
+
+def parseOpK (s : String) : OpK :=
+  match s with
+  | "i" => .input | "o" => .output | "w" => .oneQubitWrapper | "c" => .cnot | "m" => .measCnotReset | _ => .other
+
+def showPairs (l : List (Edge × Edge)) : String :=
+  joinOr "," (l.map fun (e, f) => s!"{e.src}.{e.dst}.{e.key}>{f.src}.{f.dst}.{f.key}")
+
+def cmdPositions (a : Args) : String :=
+  let ops : Array OpK := ((listOf (get a "ops")).map parseOpK).toArray
+  let d : DagView := {
+    edges := (listOf (get a "edges")).map parseEdge, eEdges := (listOf (get a "e")).map parseEdge,
+    pEdges := (listOf (get a "p")).map parseEdge, opOf := fun v => ops.getD v .other, nNodes := getNat a "nn" }
+  s!"ok cnot={showPairs d.selectPossibleCnotPosition} meas={showPairs d.selectPossibleMeasurementPosition}"
+
+/-! ### evo.sort_by -/
+def cmdSortBy (a : Args) : String :=
+  let ks := (listOf (get a "keys")).map parseScore
+  if ks.any (·.isNone) then "err parse" else
+  let rows : List (Score × Nat) := (ks.map (·.getD .inf)).zipIdx
+  s!"ok order={joinOr "," ((sortRowsBy (fun r : Score × Nat => r.1) rows).map fun r => toString r.2)}"
 
 def dispatch (cmd : String) (a : Args) : Option String :=
   match cmd with
+  | "evo.isclose" => some (cmdIsclose a)
+  | "evo.update_hof" => some (cmdUpdateHof a)
+  | "evo.tournament" => some (cmdTournament a)
+  | "evo.solve" => some (cmdSolve a)
+  | "evo.adapt" => some (cmdAdapt a)
+  | "evo.choice" => some (cmdChoice a)
+  | "evo.positions" => some (cmdPositions a)
+  | "evo.sort_by" => some (cmdSortBy a)
   | _ => none
 
 end Graphiq.CmdEvo
